@@ -229,11 +229,13 @@ def common_transform_frame(rep, f, decoder, nwords, nbytes):
     cp = [c for c in f.calls("memcpy") if show(norm(c.arg(0))) == "S" and show(norm(c.arg(1))) == "state" and norm(c.arg(2)) == ("c", nbytes)]
     fin = [e for e in f.all_elems() if e.is_assign and e.op == "+=" and norm(e.kid(0))[0] == "[]" and show(norm(e.kid(0))[1]) == "state"]
     okf = len(fin) == 1 and norm(fin[0].kid(1)) == ("[]", ("v", "S", norm(fin[0].kid(1))[1][2]), norm(fin[0].kid(0))[2]) if fin and norm(fin[0].kid(1))[0] == "[]" else False
+    whyf = ""
     if okf:
-        idx = norm(fin[0].kid(0))[2]
-        conds = [(op, L, R) for cond, truth in f.edge_conds(fin[0]) for op, L, R, _, _ in cond_atoms(cond, truth)]
-        okf = any(op == "<" and L == idx and R == ("c", nwords) for op, L, R in conds)
-    rep.check(ok and len(cp) == 1 and okf, "R-frame", "%s: decode 64 bytes with %s, copy state in, add the working variables back for all %d words" % (f.name, decoder, nwords), f.loc, "", function=f.name, construct="frame")
+        # every word 0 .. nwords - 1 once, whichever way the loop counts (covers_range)
+        sub = fin[0].kid(0).strip()
+        rets = [b.elems[0] for b in f.blocks.values() if b.elems and b.id in f.reach_from(fin[0].block.id) and fin[0].block.id not in f.reach_from(b.id)]
+        okf, whyf = covers_range(f, fin[0], sub.kid(1), nwords, rets[0] if rets else fin[0]) if sub is not None and sub.cls == "ArraySubscriptExpr" else (False, "")
+    rep.check(ok and len(cp) == 1 and okf, "R-frame", "%s: decode 64 bytes with %s, copy state in, add the working variables back for all %d words" % (f.name, decoder, nwords), f.loc, whyf, function=f.name, construct="frame")
 
 
 # ---- MD5 ---------------------------------------------------------------------------
@@ -435,6 +437,87 @@ def sha256(prog, rep, unit="alg/sha256.c", fname="SHA256_Transform", full=True):
 
 
 # ---- padding, HMAC, PBKDF2 -------------------------------------------------------------
+def covers_range(f, stmt, idx_elem, n_term, after, _shift=0):
+    """The statement `stmt`, executed in a loop with index expression `idx_elem`, runs once for every index 0 .. N-1 and for no
+    other (N = `n_term`, a term or an int), in either direction: the index is v + c for a variable v written only by one
+    initialisation before the loop and one step by one inside it; where the statement runs 0 <= index <= N - 1 (sa/poly.py); the
+    first index is 0 (stepping up) or N - 1 (stepping down); and where `after` (an element past the loop) runs, the index has left
+    the range at the far end.  Returns (ok, why)."""
+    from .. import poly
+    from ..poly import Lin
+    if idx_elem is None:
+        # no index used in the statement: the loop's counter itself, read as 0 .. N-1 or as N .. 1
+        after_stmt = f.reach_from(stmt.block.id)
+        loop0 = set(b for b in after_stmt if stmt.block.id in f.reach_from(b)) | ({stmt.block.id} if stmt.block.id in after_stmt else set())
+        cands = [e for e in f.all_elems() if ir.step(e) is not None and ir.step(e)[2] == ("c", 1) and e.block.id in loop0 and ir.step(e)[1][0] == "v"]
+        last_why = "no counter stepped by one in the loop"
+        for e in cands:
+            for shift in (0, -1):
+                okc, last_why = covers_range(f, stmt, e.kid(0), n_term, after, _shift=shift)
+                if okc:
+                    return True, ""
+        return False, last_why
+    I = norm(idx_elem)
+    vs = set(x for x in subterms(I) if isinstance(x, tuple) and len(x) > 2 and x[0] == "v")
+    v = list(vs)[0] if len(vs) == 1 else None
+    if v is None or len(v) < 3:
+        return False, "the index %s is not a variable plus a constant" % show(I)
+    writes = [e for e in f.all_elems() if (e.is_assign or e.is_incdec) and norm(e.kid(0)) == v]
+    after_stmt = f.reach_from(stmt.block.id)
+    loop = set(b for b in after_stmt if stmt.block.id in f.reach_from(b)) | ({stmt.block.id} if stmt.block.id in after_stmt else set())
+    if not loop:
+        return False, "the statement is not in a loop"
+    inits = [e for e in writes if e.is_assign and e.op == "=" and f.dominates(e, stmt) and e.block.id not in loop]
+    # the initialisation that reaches the loop: the one the others dominate
+    inits = [e for e in inits if all(o is e or f.dominates(o, e) for o in inits)]
+    steps = [e for e in writes if ir.step(e) is not None and ir.step(e)[2] == ("c", 1) and e.block.id in loop]
+    others = [e for e in writes if e not in steps and e.block.id in loop]
+    if len(inits) != 1 or len(steps) != 1 or others:
+        return False, "the index variable %s is not written by exactly one initialisation before the loop and one step of one inside it" % v[1]
+    up = ir.step(steps[0])[0] == "+="
+    A = poly.Analysis(f, quiet=set(c.callee for c in f.calls() if c.callee)).run()
+    N = Lin.const(n_term) if isinstance(n_term, int) else None
+    st = A.state_before(stmt)
+    if st is None:
+        return False, "the statement is unreachable"
+    if N is None:
+        nn = [e for e in f.all_elems() if norm(e) == n_term and (e.cls in ("DeclRefExpr", "MemberExpr", "ImplicitCastExpr"))]
+        N = A.lin(nn[0], st) if nn else None
+        if N is None:
+            N = Lin.var(n_term)
+    ix = A.lin(idx_elem, st)
+    if ix is None:
+        return False, "the index is not a linear quantity the analysis follows"
+    ix = ix + Lin.const(_shift)
+    if not (A.holds(st, ">=", ix, Lin.const(0)) and A.holds(st, "<=", ix, N - Lin.const(1))):
+        return False, "where the statement runs the index %s is not shown to lie in 0 .. N - 1" % show(I)
+    off = ix - Lin.var(v)            # the constant c of index = v + c
+    if not off.is_const():
+        return False, "the index is not the loop variable plus a constant"
+    s0 = A.state_before(inits[0])
+    first = A.lin(inits[0].kid(1), s0) if s0 is not None else None
+    if first is None:
+        return False, "the first value of %s is not followed" % v[1]
+    first = first + off
+    if not A.holds(s0, "==", first, Lin.const(0) if up else N - Lin.const(1)):
+        return False, "the first index is not %s" % ("0" if up else "N - 1")
+    # where the loop is left (every block outside it that a block inside it leads to) the index is beyond the far end
+    last = Lin.var(v) + off
+    for lb in loop:
+        for sx in f.blocks[lb].succs:
+            if sx is None or sx in loop or f.blocks[sx].noreturn:
+                continue
+            sa = A.solver.IN.get(sx)
+            if sa is None:
+                continue
+            # the state on entry to the exit block joins every way in; all of them come from this loop unless the block has
+            # other predecessors, in which case the claim is made only for what the loop contributes: refine by the loop's own edge
+            if not A.holds(sa, ">=" if up else "<=", last, N if up else Lin.const(-1)):
+                if all(p_ in loop for p_ in f.blocks[sx].preds):
+                    return False, "the loop can end before the index has reached the %s end of the range" % ("upper" if up else "lower")
+    return True, ""
+
+
 def k2_k3_k6(prog, rep, only=None):
     for up, pref, dlen, enc in (("alg/sha256.c", "SHA256", 32, "be64enc"), ("alg/sha1.c", "SHA1", 20, "be32enc_vect"), ("alg/md5.c", "MD5", 16, "le32enc_vect")):
         if only is not None and pref not in only:
@@ -505,15 +588,22 @@ def k2_k3_k6(prog, rep, only=None):
         upds = sorted([c for c in hi.calls() if c.callee in (pref + "_Update", pref + "_Update_internal") and show(norm(c.arg(1))) == "pad"], key=lambda c: c.line)
         okh = okh and len(upds) == 2 and show(norm(upds[0].arg(0))) == "&ctx->ictx" and show(norm(upds[1].arg(0))) == "&ctx->octx" and norm(upds[0].arg(2)) == ("c", 64) and norm(upds[1].arg(2)) == ("c", 64)
         okh = okh and hi.dominates(ms[0], upds[0]) and hi.dominates(upds[0], ms[1]) and hi.dominates(ms[1], upds[1]) if okh else False
-        xors = [e for e in hi.all_elems() if e.is_assign and e.op == "^=" and show(norm(e.kid(0))) == "pad[i]" and show(norm(e.kid(1))) == "K[i]"]
+        # exactly the key's bytes are XORed in: each `pad[x] ^= K[x]` runs once for every x in 0 .. Klen - 1, whichever way the loop
+        # counts (relational: covers_range)
+        xors = [e for e in hi.all_elems() if e.is_assign and e.op == "^=" and norm(e.kid(0))[0] == "[]" and show(norm(e.kid(0))[1]) == "pad" and
+                norm(e.kid(1))[0] == "[]" and show(norm(e.kid(1))[1]) == "K"]
         okh = okh and len(xors) == 2
-        # exactly the key's bytes are XORed in: each XOR is controlled by i < Klen of an index that starts at 0 and steps by one
+        KLEN = [("v", p["name"], p["id"]) for p in hi.params if p["name"] == "Klen"]
         for x in xors:
-            gs = [(op, show(L), show(R)) for cond, truth in hi.edge_conds(x) for op, L, R, _, _ in cond_atoms(cond, truth)]
-            iw = [e for e in hi.all_elems() if (e.is_assign or e.is_incdec) and show(norm(e.kid(0))) == "i"]
-            okx = ("<", "i", "Klen") in gs and all((e.is_assign and e.op == "=" and norm(e.kid(1)) == ("c", 0)) or (e.is_incdec and e.op in ("post++", "pre++")) for e in iw)
+            same = norm(x.kid(0))[2] == norm(x.kid(1))[2]
+            sub = x.kid(0).strip()
+            # the first absorption of the pad that comes after this XOR's loop
+            aft = [c_ for c_ in upds if c_.block.id in hi.reach_from(x.block.id) and x.block.id not in hi.reach_from(c_.block.id)]
+            okx, whyx = (False, "the pad byte and the key byte have different indices")
+            if same and sub is not None and sub.cls == "ArraySubscriptExpr" and KLEN:
+                okx, whyx = covers_range(hi, x, sub.kid(1), KLEN[0], aft[0] if aft else x)
             rep.check(okx, "K3-hmac", "HMAC-%s: the pad is XORed with exactly the Klen bytes of the key" % pref, x.where,
-                      "conditions on this XOR: %s (one byte more reads past the key and changes the pad whenever that byte is not zero)" % [g for g in gs if g[1] == "i"],
+                      whyx + " (one byte more reads past the key and changes the pad whenever that byte is not zero)" if not okx else "",
                       function=hi.name, construct="pad-xor-range")
         # each context is initialised before its pad is absorbed
         for cx, up_ in zip(("&ctx->ictx", "&ctx->octx"), upds[:2]):
@@ -587,7 +677,7 @@ def k5(prog, rep):
         x = [e for e in t.all_elems() if e.is_assign and norm(e.kid(1))[0] == "^"][0]
         g = any(op == "!=" and L[0] == "&" and L[2] == ("c", 0x80000000) for cond, truth in t.edge_conds(x) for op, L, R, _, _ in cond_atoms(cond, truth))
         sh = [e for e in t.all_elems() if e.is_assign and norm(e.kid(1))[0] in ("<<", "^")]
-        loop = any(op == "<" and R == ("c", 8) for cond, truth in t.edge_conds(x) for op, L, R, _, _ in cond_atoms(cond, truth))
+        loop = covers_range(t, x, None, 8, x)[0]
         g = g and loop and len(sh) == 2
     rep.check(ok and g, "K5-crc", "times256: eight shift steps reducing by the Castagnoli polynomial 0x1EDC6F41 when the top bit is set", t.loc, "%s" % polys, function="times256", construct="poly")
     ini = u.func("CRC32C_Init")
@@ -651,7 +741,17 @@ def k5(prog, rep):
             if v[0] == "&" and v[2] == ("c", 0xff):
                 sh_ = v[1][2][1] if v[1][0] == ">>" else 0
                 outs[norm(e.kid(0))[2][1]] = sh_
-    rep.check(outs == {0: 0, 1: 8, 2: 16, 3: 24}, "K5-crc", "Final writes the state least-significant byte first", fi.loc, "%s" % outs, function="CRC32C_Final", construct="final")
+    okfin = outs == {0: 0, 1: 8, 2: 16, 3: 24}
+    if not okfin and not outs:
+        # the same as a loop: one store cbuf[i] = (state >> (8 * i)) & 0xff, made for every i in 0 .. 3
+        sts = [e for e in fi.all_elems() if e.is_assign and e.op == "=" and norm(e.kid(0))[0] == "[]" and norm(e.kid(0))[2][0] != "c"]
+        if len(sts) == 1:
+            i_ = norm(sts[0].kid(0))[2]
+            v = norm(sts[0].kid(1))
+            shape = v[0] == "&" and v[2] == ("c", 0xff) and v[1][0] == ">>" and v[1][1][0] == "." and v[1][1][2] == "state" and v[1][2] in (("<<", i_, ("c", 3)), ("*", i_, ("c", 8)), ("*", ("c", 8), i_))
+            sub = sts[0].kid(0).strip()
+            okfin = shape and sub is not None and sub.cls == "ArraySubscriptExpr" and covers_range(fi, sts[0], sub.kid(1), 4, sts[0])[0]
+    rep.check(okfin, "K5-crc", "Final writes the state least-significant byte first", fi.loc, "%s" % outs, function="CRC32C_Final", construct="final")
 
 
 def k5_tables_ready(rep, tag=""):
